@@ -195,3 +195,36 @@ func verifDenseFile(name string) (hdr, heap, btree uint64) {
 	vrt.Assert(heap != 0 && btree != 0, "dense-storage-in-use")
 	return hdr, heap, btree
 }
+
+// corpus files written by the reference library keep the raw data of their contiguous datasets at the tail: the last
+// `sym` bytes are replaced by arbitrary bytes (the stored values), the file is cut at a length forked over the last
+// `span` bytes; whatever is then returned without error equals what the intact file gives
+func verifCorpusCut(rel string, sym, span int) {
+	vrt.LoopBound(200000)
+	raw := vrt.Corpus(rel)
+	nb := vrt.Bytes(sym)
+	copy(raw[len(raw)-sym:], nb)
+	vrt.AssertNoErr(os.WriteFile("c17c.h5", raw, 0o644), "write-ok")
+	intact, err := verifDumpFile("c17c.h5")
+	vrt.AssertNoErr(err, "intact-open-ok")
+	L := len(raw) - 1 - vrt.Choice(span)
+	vrt.AssertNoErr(os.Truncate("c17c.h5", int64(L)), "truncate-ok")
+	cut, err := verifDumpFile("c17c.h5")
+	if err != nil {
+		return
+	}
+	vrt.Assert(len(cut.paths) == len(intact.paths) || cut.errs > 0, "members-silently-missing")
+	if cut.errs == 0 && intact.errs == 0 {
+		vrt.Assert(len(cut.vals) == len(intact.vals), "values-silently-missing")
+		if len(cut.vals) == len(intact.vals) {
+			for i := range cut.vals {
+				vrt.Assert(cut.vals[i] == intact.vals[i], "different-values-after-truncation")
+			}
+		}
+	}
+	vrt.Covered("cut-compared")
+}
+
+func VerifH_C17_api_corpus_cut_with_groups() { verifCorpusCut("testdata/with_groups.h5", 8, 80) }
+func VerifH_C17_api_corpus_cut_multiple() { verifCorpusCut("testdata/multiple_datasets.h5", 8, 80) }
+func VerifH_C17_api_corpus_cut_matrix() { verifCorpusCut("testdata/matrix_2x3.h5", 8, 80) }
